@@ -1489,7 +1489,7 @@ func AllEnums(fd protoreflect.FileDescriptor) []protoreflect.EnumDescriptor {
 // ones it accepts, so that descriptor sets of the Supported profile mostly
 // reflect (C15 needs successful exports): flatten cycles, enum rules naming
 // undefined numbers, legacy "keys" entity inference on a message without a
-// known suffix, the unspecified key format, and string format / list rule
+// known suffix, and string format / list rule
 // combinations that exclude each other.
 func repairSupported(files []*descriptorpb.FileDescriptorProto) {
 	type msgInfo struct {
@@ -1586,7 +1586,6 @@ func repairSupported(files []*descriptorpb.FileDescriptorProto) {
 			}
 			vc, _ := proto.GetExtension(f.Options, validate.E_Field).(*validate.FieldConstraints)
 			lc, _ := proto.GetExtension(f.Options, list_j5pb.E_Field).(*list_j5pb.FieldConstraint)
-			fo, _ := proto.GetExtension(f.Options, ext_j5pb.E_Field).(*ext_j5pb.FieldOptions)
 			// enum rules name defined numbers only
 			fixEnum := func(er *validate.EnumRules, tn string) {
 				if er == nil {
@@ -1622,14 +1621,6 @@ func repairSupported(files []*descriptorpb.FileDescriptorProto) {
 					}
 				}
 				proto.SetExtension(f.Options, validate.E_Field, vc)
-			}
-			if fo != nil {
-				if k := fo.GetKey(); k != nil {
-					if kf, ok := k.Type.(*ext_j5pb.KeyField_Format_); ok && kf.Format == ext_j5pb.KeyField_FORMAT_UNSPECIFIED {
-						kf.Format = ext_j5pb.KeyField_FORMAT_ID62
-						proto.SetExtension(f.Options, ext_j5pb.E_Field, fo)
-					}
-				}
 			}
 			if f.GetType() == descriptorpb.FieldDescriptorProto_TYPE_STRING && lc.GetString_() != nil {
 				sr := vc.GetString()
